@@ -70,3 +70,35 @@ Proof.
     [eapply compile_nothing_unneeded; eauto | eapply compile_functions_nothing_unneeded; eauto].
 Qed.
 Print Assumptions C09_nothing_unneeded.
+
+(* ---------------------------------------------------------------------------------------------
+   Literals, for EVERY program of the whole surface language and EVERY history of the process
+   (the literal-name table ast_util.LITERALS is never cleared, so names depend on the history):
+   every literal entry of the MIR has a scalar literal type, and two entries have the same NAME exactly
+   when they have the same KEY — the printed value followed by the type name (what the implementation
+   hashes) — so distinct (value, type) pairs have distinct entries and one pair never has two. *)
+From NadaV.PyMini Require Import PyMini.
+From NadaV.Model Require Import Rules Corr Mir Surface Trace Compile.
+From NadaV.Proofs Require Import C09Program.
+
+Theorem C09_literal_names_are_keys : forall h p m,
+  run_after GenScalar.G true h p = Ok m ->
+  (forall l, In l (m_literals m) -> exists key, lit_key l key) /\
+  forall l1 l2 k1 k2, In l1 (m_literals m) -> In l2 (m_literals m) -> lit_key l1 k1 -> lit_key l2 k2 ->
+    (l_name l1 = l_name l2 <-> k1 = k2).
+Proof. exact (literal_names_after_any_history GenScalar.G). Qed.
+Print Assumptions C09_literal_names_are_keys.
+
+(* every literal entry is a Literal operation of the store with that value, name and type (any store) *)
+Theorem C09_literals_from_records : forall st fs0 outs m fs',
+  compile st fs0 outs = Ok (m, fs') ->
+  forall l, In l (m_literals m) ->
+    exists k r, lookup k st = Some r /\ r_node r = ALiteral (l_value l) (l_name l) /\ r_ty r = l_ty l.
+Proof. exact compile_literals. Qed.
+Print Assumptions C09_literals_from_records.
+
+(* the invariant behind it: whatever is traced, a Literal record is named after the position of its key *)
+Theorem C09_literal_naming_invariant : forall fuel ρ ss s ρ' s',
+  LInv s -> exec GenScalar.G fuel ρ ss s = Ok (ρ', s') -> LInv s'.
+Proof. exact (exec_LInv GenScalar.G). Qed.
+Print Assumptions C09_literal_naming_invariant.
